@@ -58,7 +58,7 @@ func runC15(r *Run) {
 		ok := true
 		var wit string
 		for _, e := range miss {
-			if !gets[0].Block().Dominates(e.From) {
+			if !dom(gets[0].Block(), e.From) {
 				continue
 			}
 			path, hit := reachEdge(e, isIDStore, nil, isKeyGen)
@@ -148,7 +148,7 @@ func runC15(r *Run) {
 			}
 			if spec.clears {
 				rs := callsMatching(f, false, nameHasSuffix("session.data).Reset"))
-				okC := len(rs) == 1 && (rs[0].Block().Dominates(del[0].Block()) || rs[0].Block() == del[0].Block())
+				okC := len(rs) == 1 && (dom(rs[0].Block(), del[0].Block()) || rs[0].Block() == del[0].Block())
 				// the data.Reset call sits under `s.data != nil`; what matters: no path reaches Delete with data != nil and without Reset
 				if len(rs) == 1 {
 					cutNil := map[edge]bool{}
@@ -211,7 +211,7 @@ func runC15(r *Run) {
 			for _, fr := range fieldRefs(f) {
 				if fr.Write {
 					n++
-					if !(fr.Instr.Block().Dominates(puts[0].Block())) {
+					if !(dom(fr.Instr.Block(), puts[0].Block())) {
 						okDom = false
 					}
 				}
@@ -231,7 +231,7 @@ func runC15(r *Run) {
 		for _, in := range instrsWhere(h, func(in ssa.Instruction) bool {
 			return isCallTo(in, func(s string) bool { return s == "("+fiberMod+".Ctx).Next" })
 		}) {
-			if acq[0].Block().Dominates(in.Block()) {
+			if dom(acq[0].Block(), in.Block()) {
 				next = in
 			}
 		}
